@@ -21,7 +21,7 @@ def variant_envs(F):
         consts = ic.get(key)
         if consts is None:
             return None
-        env = {"SIZE_CKSUM": ck, "SIZE_BODY": body, "SIZE_BUCKETS": buckets, "SIZE_IN_BYTES": nbytes, "SIZE_IN_STR_BYTES": nstr}
+        env = {"SIZE_CKSUM": ck, "SIZE_BODY": body, "SIZE_BUCKETS": buckets, "SIZE_IN_BYTES": nbytes, "SIZE_IN_STR_BYTES": nstr, "__variant__": name}
         for k, v in consts.items():
             env["assoc:" + k] = v
             env["assoc:hash::public::FuzzyHashType::" + k] = v
@@ -51,6 +51,8 @@ def ceval(e, env):
     k = e[0]
     if k == "const":
         return e[1]
+    if k == "perenv":
+        return e[1].get(env.get("__variant__"))  # a per-variant number produced by the evaluation-based writer model
     if k == "cparam":
         return env.get(e[1])
     if k == "cpath":
@@ -216,7 +218,40 @@ def src_field(e, hf):
     return sorted(names)[0] if len(names) == 1 else None
 
 
+_WCACHE = {}
+
+
+def _evaluated(F, which):
+    """the evaluation-based writer model (wmodel) when it can evaluate the function completely, else None"""
+    key = (id(F), which)
+    if key not in _WCACHE:
+        from . import wmodel
+        try:
+            W, err = (wmodel.text_writer if which == "text" else wmodel.binary_writer)(F)
+        except RecursionError:
+            W, err = None, "recursion"
+        _WCACHE[key] = (W, err)
+        _WCACHE[(id(F), which, "keep")] = F  # keep F alive so that id() stays unique
+    return _WCACHE[key][0]
+
+
 def text_writer(F):
+    """Writer model of store_into_str_bytes: by abstract evaluation when the function can be evaluated completely (wmodel), else by
+    the write idioms below."""
+    W = _evaluated(F, "text")
+    if W is not None:
+        return W, None
+    return text_writer_idioms(F)
+
+
+def binary_writer(F):
+    W = _evaluated(F, "binary")
+    if W is not None:
+        return W, None
+    return binary_writer_idioms(F)
+
+
+def text_writer_idioms(F):
     """{prefix variant: {'gate': expr, 'ret': expr, 'writes': [(start, end_or_None, kind, src, len_expr)]}}"""
     b, S, err = writer_paths(F, "store_into_str_bytes")
     if b is None:
@@ -313,7 +348,7 @@ def _array_len(F, callee, arg_index):
     return None
 
 
-def binary_writer(F):
+def binary_writer_idioms(F):
     b, S, err = writer_paths(F, "store_into_bytes")
     if b is None:
         return None, err
